@@ -5,6 +5,7 @@ import random
 from .. import gen
 from .. import harness as H
 from .. import monitors
+from .. import simnet
 from ..ref import ws as refws
 from ..ref import http as refhttp
 
@@ -152,6 +153,12 @@ def cases(tier, seed, i, n):
             for _ in range(ncut):
                 yield dict(kind='reply', fam=fam, spec=spec, exp=exp, seg='cuts',
                            cut=sorted(rnd.sample(range(1, 160), rnd.choice((1, 2, 3)))))
+        # connect() is called again on the object (next connection prepared from the handler, a watchdog thread) while
+        # an attempt still waits for its reply: each attempt is judged against the key IT sent
+        for v in ('own', 'other'):
+            for depth in ('created', 'connected', 'ready', 'end'):
+                for at in ('connecting', 'connected'):
+                    yield dict(kind='overlap', v=v, depth=depth, at=at)
         for r in range(300 if tier == 'quick' else 60000):
             yield dict(kind='prevkey', r=r)
         # every single cut of one correct and one wrong reply
@@ -169,6 +176,8 @@ def run_case(case, acc):
         return run_keys(case, acc)
     if k == 'prevkey':
         return run_prevkey(case, acc)
+    if k == 'overlap':
+        return run_overlap(case, acc)
     return run_reply(case, acc)
 
 
@@ -309,6 +318,71 @@ def run_prevkey(case, acc):
                       dict(events=r2.normed()))
     else:
         acc.cls('prevkey')
+
+
+def run_overlap(case, acc):
+    """attempt 1 is at `at` when connect() is called again on the same object and the new attempt is driven to `depth`
+    (each attempt in its own world); then attempt 1 goes on.  Server 1 answers with the digest of the key of attempt 1
+    ('own': Ready, and the frames behind it are delivered) or with the digest of the key attempt 2 sent ('other': a wrong
+    accept value like any other - Rejected).  Attempt 2, answered correctly by its own server, is Ready as well."""
+    v, depth, at = case['v'], case['depth'], case['at']
+    spec1 = {} if v == 'own' else dict(accept='prev', prev_key=b'AAAAAAAAAAAAAAAAAAAAAA==')
+    frames = F(1, b'<<AFTER-HANDSHAKE>>') + F(9, b'pp')
+    w1 = H.World(H.hs_server([('raw', frames), ('eof',)], spec1))
+    w2 = H.World(H.hs_server([('raw', F(1, b'<<TWO>>')), ('eof',)]))
+    st = {'names2': [], 'g2': None}
+
+    def more2(upto):
+        with simnet.Installed(w2):
+            try:
+                for ev2 in st['g2']:
+                    st['names2'].append(ev2.name)
+                    if ev2.name == upto:
+                        break
+            except (simnet.Quiesced, simnet.BudgetExceeded):
+                st['names2'].append('<quiesced>')
+
+    def pol(ws, ev, idx, run_):
+        if ev.name == at and st['g2'] is None:
+            with simnet.Installed(w2):
+                st['g2'] = ws.connect(session_class=simnet.SimSession, ping_rate=0)
+            if depth != 'created':
+                more2(depth if depth != 'end' else None)
+            if v == 'other' and w2.conns:
+                spec1['prev_key'] = refhttp.request_key(bytes(w2.conns[0].tx))
+
+    run = H.drive(w1, connect_kwargs=dict(ping_rate=0), policy=pol, companion=False)
+    more2(None)
+    acc.count2('reply', 'judged')
+    acc.count2('overlap', 'attempts_overlapped')
+    k1 = refhttp.request_key(bytes(w1.conns[0].tx)) if w1.conns else None
+    k2 = refhttp.request_key(bytes(w2.conns[0].tx)) if w2.conns else None
+    key = None
+    if k1 is None or k2 is None:
+        key = 'overlapping-attempt-sent-no-request'
+    elif k1 == k2:
+        key = 'handshake-key-not-fresh:overlapping-attempts-sent-the-same-key'
+    else:
+        if v == 'other' and at == 'connecting':
+            # attempt 1 had not sent its request when attempt 2 was made: server 1 answers with what is, for attempt
+            # 1, the digest of another key in any case
+            pass
+        exp = 'ready' if v == 'own' else 'rejected'
+        acc.count2('reply', 'expect_' + exp)
+        key = judge_reply(run, w1, exp, spec1, True)
+        if key:
+            key += ':attempt-judged-against-the-key-of-a-later-connect'
+        else:
+            r2 = H.Run()
+            r2.names = st['names2']
+            n2 = [n for n in st['names2'] if n != 'poll']
+            if n2[:3] != ['connecting', 'connected', 'ready'] or 'text' not in n2:
+                key = 'no-ready-for-correct-reply:attempt-disturbed-by-the-loop-of-the-previous-connect'
+    if key:
+        acc.violation(key, 'C10 %s (overlap %s, attempt 2 driven to %s at %s of attempt 1)' % (key, v, depth, at), case,
+                      dict(events1=run.normed()[-6:], events2=st['names2'], end=run.end, exc=run.exc))
+    else:
+        acc.cls('overlap/%s/%s/%s' % (v, depth, at))
 
 
 # ------------------------------------------------------------------ reply side
